@@ -76,9 +76,14 @@ def m_incomparable_delays(v: dict) -> bool:
 
 def m_rt_consumer_late(v: dict) -> bool:
     """C17: 'too slow' is reported for a simulator that has a zero-delay predecessor while every
-    simulator answers instantly (the predecessor's progress is capped by the real-time cap)."""
+    simulator answers instantly (the predecessor's progress is capped by the real-time cap), for every
+    report of the run, and no report is later than one slot per simulator in the reported simulator's
+    chain of zero-delay predecessors.  Anything later, or a report for a simulator without predecessor,
+    is not matched."""
+    ex = v.get("lateness_beyond_one_slot_per_predecessor")
     return (v.get("kind") == "too_slow_reported_with_instant_simulators"
-            and v.get("reported_simulator_has_zero_delay_predecessor") is True)
+            and v.get("reported_simulator_has_zero_delay_predecessor") is True
+            and ex is not None and ex <= 1e-9)
 
 
 MECHANISMS = {
